@@ -473,6 +473,41 @@ def Table.sorted (t : Table) (columns : Option (List String)) (reverse : List St
     -- `argsort` on the records of transformed key fields, and `col[indices]` for every column
     pure { t with cols := sortedCols dfl lexLe (sortKeyOf sel kinds revs uniqs) t.cols }
 
+/-! ### current index_name rules (repo commits 139023fff, 8fa17c558)
+
+`Table.innerJoin`, `Table.appended` and `Table.filteredByColumn` above hand `self`'s index_name on
+unconditionally — the code BEFORE those commits (the result then raised `ValueError` on first use, or kept an
+index_name whose column was not selected).  The functions below mirror the code as it is now and are the ones
+the driver runs. -/
+
+/-- `if index_name in result.columns and len(set(result.columns[index_name].tolist())) == len(result)` -/
+def keepIndexIfUnique (index : Option String) (header : List String) (cols : List (List Cell)) : Option String :=
+  match index with
+  | none => none
+  | some k =>
+    match header.idxOf? k with
+    | none => none
+    | some i =>
+      let col := (cols.getD i []).map Cell.key
+      if (setOfList [] col).length = nrows cols then some k else none
+
+/-- CURRENT `inner_join`: the index_name is kept only if its column still has unique values -/
+def Table.innerJoinCur (t u : Table) (ks ko : List String) (pre : String := "right_") : Except String Table := do
+  let r ← t.innerJoin u ks ko pre
+  pure { r with index := keepIndexIfUnique t.index r.header r.cols }
+
+/-- CURRENT `appended`: likewise (unique across all appended tables) -/
+def Table.appendedCur (t : Table) (newCol : Option String) (others : List Table) : Except String Table := do
+  let r ← t.appended newCol others
+  pure { r with index := keepIndexIfUnique t.index r.header r.cols }
+
+/-- CURRENT `filtered_by_column`: the index_name is kept only if its column was selected -/
+def Table.filteredByColumnCur (t : Table) (p : List Cell → Bool) : Table :=
+  let r := t.filteredByColumn p
+  { r with index := match t.index with
+      | some k => if r.header.contains k then some k else none
+      | none => none }
+
 /-! ### `table[rows, columns]` -/
 
 /-- the row part of an index expression -/
